@@ -10,7 +10,6 @@ package aof
 //@ func (d *DiskKV) handleMutation(mut *proto.Mutation) (err error)
 //@   opt frame=off
 //@   opt puredyn=content
-//@   opt inline=GetType,GetKey,GetValue,GetKeys,GetValues
 //@   requires receiver: d != nil && d.memKv != nil && mut != nil
 //@   requires store-well-formed: memory.repOK(d.memKv)
 //@   requires the-shared-empty-value-is-nil: memory.empty == nil
